@@ -76,8 +76,18 @@ def _date(draw):
     return dict(s='%02d-%s-%02d' % (yy, mn, d), d=[2000 + yy if yy <= 68 else 1900 + yy, mo, d], kind=kind)
 
 
+_NUM_FORMS = [repr, repr, repr, lambda v: '%E' % v, lambda v: '%.3e' % v, lambda v: '+' + repr(v),
+              lambda v: ' %r ' % (v,), lambda v: repr(float(v))]
+
+
+def _spelled(v_f):
+    # the ways a writer may spell one number: 450, 450.0, 4.500000E+02, 4.500e+02, +450, ' 450 '
+    s_ = v_f[1](v_f[0])
+    return dict(s=s_, v=float(s_))
+
+
 def _num(well):
-    return st.one_of(well.map(lambda v: dict(s=repr(v), v=float(v))),
+    return st.one_of(st.tuples(well, st.sampled_from(_NUM_FORMS)).map(_spelled),
                      st.sampled_from(BAD_NUM).map(lambda s: dict(s=s, v=None)))
 
 
